@@ -8,7 +8,8 @@
      d0    : ','-separated node ids initially in the destination, or '-'
      trace : ','-separated event tokens or '-': the tokens of ml/c01_main.ml plus
              XX.n  SX.n  SR.n  PX.n.ref.stored  TX.n.set  MX.n.stored  MB.n  ME.n.(m|s|c)  QK  QX  CN
-     api   : followed by m when the destination is a registry.Mounter and MountFrom is set
+     api   : optionally followed by /<5 bits> (which of PreCopy PostCopy OnCopySkipped OnMounted MountFrom are
+             set; the invocations of nil callbacks are inserted by Model/CopyFaultOpt.fstep_opt); followed by m when the destination is a registry.Mounter and MountFrom is set
    output: <id> ACC ret=<1|0|-> tag=<n|-> dst=<ids> closed=<1|0>
              closed = the destination was link-closed after EVERY event of the trace (self-check of
              the model-side predicate; the theorem C02_closed_always says it is always 1)
@@ -62,6 +63,14 @@ let () =
     | id :: sn :: sk :: sapi :: sroots :: snodes :: sd0 :: strace :: _ ->
       (try
         let n0 = int_of_string sn in
+        (* <api>[m][/<5 bits: PreCopy PostCopy OnCopySkipped OnMounted MountFrom set>] *)
+        let sapi, bits = (match String.split_on_char '/' sapi with
+          | [a; b] when String.length b = 5 -> a, b
+          | [a] -> a, "11111"
+          | _ -> failwith "api") in
+        let cs k = (match k with
+          | CPre -> bits.[0] = '1' | CPost -> bits.[1] = '1' | CSkip -> bits.[2] = '1'
+          | CMounted -> bits.[3] = '1' | CMountFrom -> bits.[4] = '1') in
         let mount = String.length sapi = 2 && sapi.[1] = 'm' in
         let sapi = String.sub sapi 0 1 in
         let ext = (sapi = "x") in
@@ -103,9 +112,9 @@ let () =
             match tr with
             | [] -> Ok fs
             | e :: tr' ->
-              (match fstep g c ext fs e with
+              (match fstep_opt cs g c ext fs e with
                | None -> Error i
-               | Some fs' ->
+               | Some (fs', _) ->
                  if not (closedb g fs'.fb.dst) then closed := false;
                  go fs' tr' (i + 1)) in
           match go (finit c ext d0) tr 0 with
